@@ -35,7 +35,11 @@ def gen(rng, i, tier):
         rails=rng.choice([0.0, 0.4]),
     )
     ta = rng.choice([25.0, round(rng.uniform(-60, 125), 1), float(rng.randint(-60, 125))])
-    return {"spec": spec, "tol": rng.choice([1e-6, 1e-6, 1e-9]), "ta": ta}
+    if rng.random() < 0.15:
+        spec = G.scale_currents(spec, 10 ** rng.uniform(-6, 5))  # uA-class ... kA-class systems
+    case = {"spec": spec, "tol": rng.choice([1e-6, 1e-6, 1e-9]), "ta": ta}
+    case.update(_rows.random_call_context(rng))
+    return case
 
 
 def directed():
